@@ -81,7 +81,7 @@ type boundsCtx struct {
 	// substitution of parameters by caller-side terms (caller-established rule)
 	visitingPhi map[*ssa.Phi]bool
 	xtype       map[atom]types.Type // type of the value an opaque ('x') atom stands for
-	assumed     []lin // documented preconditions of the function (c04Assumes), as facts lin ≤ 0
+	assumed     []lin               // documented preconditions of the function (c04Assumes), as facts lin ≤ 0
 }
 
 // einfo: an etype-dependent product or quotient: left (op) right, where right is made of constant
